@@ -89,7 +89,10 @@ type walker struct {
 	nFrames int
 	err     error
 	shared  map[types.Object]bool
-	entry   *Frame
+	// locals that hold exactly one function literal for their whole life (safe to inline even
+	// when another closure captures them)
+	boundOnce map[types.Object]bool
+	entry     *Frame
 }
 
 func (w *walker) isShared(o types.Object) bool {
@@ -127,9 +130,32 @@ func Walk(prog *Prog, cfg *Config, entry Entry, onPath func(*Path)) (nPaths int,
 	}
 	if outer != nil {
 		w.shared = SharedLocals(prog, outer)
+		w.boundOnce = map[types.Object]bool{}
+		for obj, lits := range EscapesOf(prog, outer).Bound {
+			if len(lits) == 1 {
+				w.boundOnce[obj] = true
+			}
+		}
 	}
 	w.entry = fr
 	st := &state{}
+	if entry.Lit != nil && outer != nil {
+		// local closures of the enclosing function that the literal can call
+		ei := EscapesOf(prog, outer)
+		for obj, lits := range ei.Bound {
+			if len(lits) != 1 || lits[0] == entry.Lit {
+				continue
+			}
+			if obj.Pos() >= entry.Lit.Pos() && obj.Pos() < entry.Lit.End() {
+				continue
+			}
+			// the bound literal must not contain the entry literal (no self inlining)
+			if entry.Lit.Pos() >= lits[0].Pos() && entry.Lit.End() <= lits[0].End() {
+				continue
+			}
+			st.env = st.env.bind(obj, Value{Kind: VFuncLit, Lit: lits[0], LitFr: &Frame{Pkg: outer.Pkg}})
+		}
+	}
 	for o, v := range entry.Binds {
 		st.env = st.env.bind(o, v)
 	}
